@@ -232,13 +232,19 @@ theorem fromSpecifierSet_textInv (cs : List (Clause Ver)) (s : Spec Ver) (h : fr
         exact ih _ (and_textInv acc sc ha (fromClause_textInv c sc hc)) s h
   exact gen cs (.range {}) (textOk_of_none _ rfl) s h
 
-/-- a version that is not a post-release -/
-def NoPost (v : Ver) : Prop := v.post = none
+/-- a plain final release `N(.N)*`: no epoch, no pre/post/dev segment — the versions the marker
+    properties speak about (`python_version`, `python_full_version`, `platform_release` values) -/
+def FinalV (v : Ver) : Prop := v.isFinal = true ∧ v.epoch = 0 ∧ v.release ≠ []
 
-/-- bounds without post-releases exclude the D4a rendering -/
-theorem noD4a_of_noPost (r : Range Ver) (h : BoundsIn NoPost (.range r)) : NoD4a r := by
+theorem FinalV.post {v : Ver} (h : FinalV v) : v.post = none := by
+  rcases v with ⟨e, r, pre, post, dev⟩
+  have := h.1
+  cases pre <;> cases post <;> cases dev <;> simp [Ver.isFinal] at this ⊢
+
+/-- final bounds exclude the D4a rendering -/
+theorem noD4a_of_final (r : Range Ver) (h : BoundsIn FinalV (.range r)) : NoD4a r := by
   intro _ mn mx _ hmax _
-  exact (boundsIn_range NoPost r h).2 mx hmax
+  exact ((boundsIn_range FinalV r h).2 mx hmax).post
 
 theorem invert_boundsIn {α : Type} [LinPre α] (P : α → Prop) (a : Spec α) (ha : BoundsIn P a) : BoundsIn P a.invert := by
   obtain ⟨a', rfl⟩ := ha
@@ -249,41 +255,41 @@ end Spec
 namespace C06
 open Spec
 
-/-- everything the operators build from good leaves: canonical, cached texts right, no post-release bound -/
+/-- everything the operators build from good leaves: canonical, cached texts right, every stored version a plain final release -/
 structure Nice (s : Spec Ver) : Prop where
   canon : Canon s
   text : TextInv s
-  noPost : BoundsIn NoPost s
+  finalBounds : BoundsIn FinalV s
 
 theorem nice_empty : Nice .empty := ⟨trivial, trivial, boundsIn_empty _⟩
 theorem nice_any : Nice .any := ⟨trivial, trivial, boundsIn_any _⟩
 
 theorem nice_and (a b : Spec Ver) (ha : Nice a) (hb : Nice b) : Nice (a.and b) :=
-  ⟨and_canon _ _ ha.canon hb.canon, and_textInv _ _ ha.text hb.text, and_boundsIn _ _ _ ha.noPost hb.noPost⟩
+  ⟨and_canon _ _ ha.canon hb.canon, and_textInv _ _ ha.text hb.text, and_boundsIn _ _ _ ha.finalBounds hb.finalBounds⟩
 
 theorem nice_or (a b r : Spec Ver) (ha : Nice a) (hb : Nice b) (h : a.or b = some r) : Nice r := by
   obtain ⟨r', h1, h2, _⟩ := or_spec a b ha.canon hb.canon
   rw [h] at h1; cases h1
-  exact ⟨h2, or_textInv _ _ _ ha.text hb.text h, or_boundsIn _ _ _ _ ha.noPost hb.noPost h⟩
+  exact ⟨h2, or_textInv _ _ _ ha.text hb.text h, or_boundsIn _ _ _ _ ha.finalBounds hb.finalBounds h⟩
 
 theorem nice_invert (a : Spec Ver) (ha : Nice a) : Nice a.invert :=
-  ⟨invert_canon _ ha.canon, invert_textInv a, invert_boundsIn _ _ ha.noPost⟩
+  ⟨invert_canon _ ha.canon, invert_textInv a, invert_boundsIn _ _ ha.finalBounds⟩
 
 /-- a nice object renders to text that denotes an `==` object -/
 theorem nice_roundtrips (s : Spec Ver) (nice : Nice s) : RoundTrips s := by
   apply roundtrips s nice.canon
   · intro r hr
     rcases hr with rfl | ⟨rs, t, rfl, hrm⟩
-    · exact ⟨nice.text, noD4a_of_noPost r nice.noPost⟩
+    · exact ⟨nice.text, noD4a_of_final r nice.finalBounds⟩
     · refine ⟨nice.text.1 r hrm, ?_⟩
       intro _ mn mx _ hmax _
-      exact ((boundsIn_union NoPost rs t nice.noPost) r hrm).2 mx hmax
+      exact (((boundsIn_union FinalV rs t nice.finalBounds) r hrm).2 mx hmax).post
   · intro rs t hs
     subst hs
     exact nice.text.2
 
 /-- **C06 for everything reachable**: objects built by `&`, `|`, `~` from nice leaves (what the parser
-    yields from clauses without post-release versions) render to text that denotes an `==` object -/
+    yields from clauses over plain final releases) render to text that denotes an `==` object -/
 theorem reach_roundtrips {Leaf : Spec Ver → Prop} (hleaf : ∀ s, Leaf s → Nice s) {s : Spec Ver}
     (h : C01.Reach Leaf s) : RoundTrips s := by
   apply nice_roundtrips
